@@ -610,10 +610,16 @@ pub fn parse_tls_extension_unknown(i: &[u8]) -> IResult<&[u8], TlsExtension> {
 }
 
 /// Parse a single TLS Client Hello extension
+/// RFC 8701 GREASE extension code points: 0x0A0A, 0x1A1A, ... 0xFAFA (both bytes equal)
+#[inline]
+fn is_grease(ext_type: u16) -> bool {
+    ext_type & 0x0f0f == 0x0a0a && (ext_type >> 8) == (ext_type & 0xff)
+}
+
 pub fn parse_tls_client_hello_extension(i: &[u8]) -> IResult<&[u8], TlsExtension> {
     let (i, ext_type) = be_u16(i)?;
     let (i, ext_data) = length_data(be_u16)(i)?;
-    if ext_type & 0x0f0f == 0x0a0a {
+    if is_grease(ext_type) {
         return Ok((i, TlsExtension::Grease(ext_type, ext_data)));
     }
     let ext_len = ext_data.len() as u16;
@@ -655,7 +661,7 @@ pub fn parse_tls_client_hello_extension(i: &[u8]) -> IResult<&[u8], TlsExtension
 pub fn parse_tls_server_hello_extension(i: &[u8]) -> IResult<&[u8], TlsExtension> {
     let (i, ext_type) = be_u16(i)?;
     let (i, ext_data) = length_data(be_u16)(i)?;
-    if ext_type & 0x0f0f == 0x0a0a {
+    if is_grease(ext_type) {
         return Ok((i, TlsExtension::Grease(ext_type, ext_data)));
     }
     let ext_len = ext_data.len() as u16;
@@ -691,7 +697,7 @@ pub fn parse_tls_server_hello_extension(i: &[u8]) -> IResult<&[u8], TlsExtension
 pub fn parse_tls_extension(i: &[u8]) -> IResult<&[u8], TlsExtension> {
     let (i, ext_type) = be_u16(i)?;
     let (i, ext_data) = length_data(be_u16)(i)?;
-    if ext_type & 0x0f0f == 0x0a0a {
+    if is_grease(ext_type) {
         return Ok((i, TlsExtension::Grease(ext_type, ext_data)));
     }
     let ext_len = ext_data.len() as u16;
